@@ -121,6 +121,17 @@ CHECKS = {
              "result and receiver-afterwards, both runtimes must reproduce them.",
         note="Type-only (no value oracle) for compare_lev, parse_float, to_json_indent, to_lower/upper, replace, join.",
         design="5/C18"),
+    "C09": dict(
+        technique="TLA+ bytecode-machine spec (HmsVM: one rule per opcode, LimitOvershoot / LoopNeutral / "
+                  "ReturnBalanced / NoUnderflow / HandlersLive) validated against recorded instruction traces "
+                  "(TraceVM) of limit-parameterised programs; three-zone oracle on the outcome",
+        text="Programs parameterised by recursion depth, expression nesting, locals and iterations run under limit "
+             "triples below / at / above their measured need: need <= limit must complete, need > limit + one quantum "
+             "must end in the corresponding fatal interrupt, never a host crash; bounded long-running programs must "
+             "complete under tight limits on both backends; every recorded instruction trace must be a behaviour of "
+             "HmsVM with all its invariants holding at every instruction.",
+        note="Trusted: the per-opcode rule table of HmsVM (transcribed from the instruction set), the hooks.",
+        design="5/C09"),
 }
 
 NOT_YET = {}
